@@ -27,7 +27,9 @@ impl U31x8 {
     pub fn to_simd_vec(data: &[U31]) -> Vec<Self> {
         let mut result = vec![];
         for xs in data.chunks(SIMD_SIZE) {
-            let mut array = [U31::default(); SIMD_SIZE];
+            // Missing lanes are filled with the invalid id (not id 0, which is a real feature id)
+            // so that they never contribute a cost.
+            let mut array = [U31::MAX; SIMD_SIZE];
             array[..xs.len()].copy_from_slice(xs);
 
             #[cfg(not(target_feature = "avx2"))]
